@@ -92,9 +92,74 @@ func runC09(ctx *core.Ctx, out *core.Out) {
 			}
 		}
 	}
+	for _, path := range []int{cpWriteControl, cpCloseHandler, cpProtocolError, cpReadLimit} {
+		if !c09JSONMid(ctx, out, cfg, path) {
+			return
+		}
+	}
 	if ctx.Idx%50 == 0 {
 		out.Sample(map[string]interface{}{"case": desc, "close_positions": positions + 1, "close_paths": closePathNames})
 	}
+}
+
+// hookMarshaler runs fn while WriteJSON is between its NextWriter and its Close.
+type hookMarshaler struct{ fn func() }
+
+func (h hookMarshaler) MarshalJSON() ([]byte, error) {
+	h.fn()
+	return []byte(`{"sent":"while the message was open"}`), nil
+}
+
+// c09JSONMid: a close is sent (by another path) while WriteJSON has its message
+// open. The JSON message can no longer be sent, so WriteJSON must not return nil,
+// and nothing may follow the close frame.
+func c09JSONMid(ctx *core.Ctx, out *core.Out, cfg Cfg, path int) bool {
+	nc := xport.New(nil)
+	nc.EndErr = xport.ErrClosed
+	c := newConn(nc, cfg, &TrackPool{}, 0)
+	if path == cpReadLimit {
+		c.SetReadLimit(5)
+	}
+	peer := func(f wire.Frame) {
+		f.Masked = cfg.Server
+		f.Key = [4]byte{1, 2, 3, 4}
+		nc.Feed(xport.Chunk{Data: wire.Append(nil, f)})
+	}
+	closeOK := true
+	err := c.WriteJSON(hookMarshaler{func() {
+		switch path {
+		case cpWriteControl:
+			closeOK = c.WriteControl(ws.CloseMessage, ws.FormatCloseMessage(1000, "mid"), time.Time{}) == nil
+		case cpCloseHandler:
+			peer(wire.Frame{Fin: true, Op: 8, Payload: wire.MkClose(4321, "peer")})
+			c.ReadMessage()
+		case cpProtocolError:
+			peer(wire.Frame{Fin: true, Rsv2: true, Op: 1, Payload: []byte("bad")})
+			c.ReadMessage()
+		case cpReadLimit:
+			peer(wire.Frame{Fin: true, Op: 2, Payload: []byte("0123456789")})
+			c.ReadMessage()
+		}
+	}})
+	out.Eval(fmt.Sprintf("jsonmid|%s|%d", cfg, path), true)
+	out.Count("closes_sent", 1)
+	out.Count("close_inside_open_message", 1)
+	d := map[string]interface{}{"cfg": cfg, "close_path": closePathNames[path], "scenario": "close sent while WriteJSON has its message open"}
+	if !closeOK {
+		out.Violate("C09:close-not-sent", "WriteControl(close) failed on a healthy connection", d)
+		return false
+	}
+	out.Count("calls_after_close_checked", 1)
+	if err == nil {
+		out.Violate("C09:writer-close-after-close:WriteJSON", "WriteJSON returned nil although a close frame was sent while its message was open: the message is reported as sent", d)
+		return false
+	}
+	frames, rest, derr := wire.Decode(nc.Written())
+	if derr != nil || len(rest) > 0 || len(frames) == 0 || frames[len(frames)-1].Op != 8 {
+		out.Violate("C09:bytes-after-close", "the write log does not end with the close frame", map[string]interface{}{"cfg": cfg, "frames": framesDesc(frames, 8)})
+		return false
+	}
+	return true
 }
 
 func c09One(ctx *core.Ctx, out *core.Out, cfg Cfg, prog []WStep, desc rtCase, ph uint64, pos, path int) bool {
@@ -110,6 +175,7 @@ func c09One(ctx *core.Ctx, out *core.Out, cfg Cfg, prog []WStep, desc rtCase, ph
 	var closeErr error
 	wantCode := 1000
 	openAtClose := false
+	lazyClose := false
 	hook := 0
 	peer := func(f wire.Frame) {
 		f.Masked = cfg.Server
@@ -131,7 +197,15 @@ func c09One(ctx *core.Ctx, out *core.Out, cfg Cfg, prog []WStep, desc rtCase, ph
 			if err == nil {
 				_, err = wr.Write(body)
 				if err == nil {
-					err = wr.Close()
+					if (pos+len(prog))%2 == 0 && !w.pendingOpen {
+						// the close message's writer is left open: the close frame goes out
+						// with the next message-level call (implicit close) or at the end
+						lazyClose = true
+						w.Sent = append(w.Sent, Sent{Type: 8, Data: body, Step: -1})
+						w.open, w.openIdx = wr, len(w.Sent)-1
+					} else {
+						err = wr.Close()
+					}
 				}
 			}
 			closeErr = err
@@ -239,6 +313,22 @@ func c09One(ctx *core.Ctx, out *core.Out, cfg Cfg, prog []WStep, desc rtCase, ph
 		return fail("ill-formed-before-close", v.Error(), map[string]interface{}{"frames": framesDesc(frames, 20)})
 	}
 	// API results after the close
+	if lazyClose {
+		// the close frame reached the wire during one of the recorded calls: that call,
+		// if it begins a message of its own, and every later call must fail
+		end := frames[ci].Off + frames[ci].Size
+		closeCallEnd = len(w.Calls)
+		for i, cl := range w.Calls {
+			if cl.BytesBefore < end && cl.BytesAfter >= end {
+				closeCallEnd = i
+				if cl.Name == "Close" {
+					closeCallEnd = i + 1 // the explicit Close of the close message's own writer
+				}
+				break
+			}
+		}
+		out.Count("close_flushed_by_a_later_call", 1)
+	}
 	for i, cl := range w.Calls {
 		if i < closeCallEnd {
 			continue
